@@ -113,6 +113,9 @@ func Deadline(defQuick, defThorough time.Duration) time.Time {
 // NewReport creates the report of one harness part.
 func NewReport(property, part string) *Report {
 	i, n := Shard()
+	if p := os.Getenv("VERIF_PROPERTY"); p != "" {
+		property = p // one harness can serve several checks; the driver says which one is being decided
+	}
 	return &Report{
 		Property: property, Part: part, Tier: Tier(), Shard: i, NShards: n,
 		states: map[uint64]struct{}{}, nontrivial: map[uint64]struct{}{},
